@@ -405,6 +405,36 @@ def run(prog, rep, tier='quick', config='default'):
                                   detail='the Result of %s is discarded: a failed %s would still be followed by the rename / an Ok return'
                                          % (cc.callee, k))
 
+    # ---------------------------------------------------------------- R14e: the live name is built in one place only
+    def templates(fn):
+        out = set()
+        for b in fn.blocks.values():
+            for st in b['stmts']:
+                for o in st['r'].get('ops', []):
+                    if o.get('k') == 'const' and re.search(r'^b?"', o.get('v', '')) and len(o['v']) > 6:
+                        out.add(o['v'])
+            t = b['term']
+            if t and t['t'] == 'call':
+                for o in t['args']:
+                    if o.get('k') == 'const' and re.search(r'^b?"', o.get('v', '')) and len(o['v']) > 6:
+                        out.add(o['v'])
+        return out
+    live_t = templates(producer)
+    dup = []
+    if live_t:
+        for fn in prog.product_fns():
+            if fn.name == producer.name or fn.name.startswith(producer.name + '::'):
+                continue
+            if templates(fn) & live_t:
+                dup.append(fn)
+    if not live_t:
+        rep.violation('R14e', 'anchor-lost:live-name-template', fn=producer.name, detail='anchor lost: the format template of the live cache file name')
+    elif dup:
+        rep.violation('R14e', 'live-name-built-in-one-place', fn=dup[0].name, where='%s:%d' % (dup[0].file, dup[0].line),
+                      detail='%s builds the live cache file name itself (same format template as %s): files opened through it escape the path analysis' % (dup[0].name, producer.name))
+    else:
+        rep.ok('R14e', 'live-name-built-in-one-place', fn=producer.name, detail='no other function carries the format template of the live cache file name')
+
     # ---------------------------------------------------------------- who else writes rate files?
     for c in prog.all_calls():
         if c.fn.name == producer.name:
